@@ -318,15 +318,45 @@ def gen_wolf(rng, tier):
 
 
 def gen_mpol(rng):
-    S = rng.choice([1, 2, 3]); A = rng.choice([2, 3, 4])
-    toks = []
-    for _ in range(S):
+    """MDP::Policy built from a matrix: valid tables, one bad row, COMPENSATING bad rows (row sums 1-d and
+       1+d), column-stochastic ("transposed") square tables, all mass in one state, a negative entry made
+       up for elsewhere.  Row sums are exactly one or at least 1/64 away from it."""
+    S = rng.choice([1, 2, 2, 3, 3]); A = rng.choice([2, 3, 4])
+    def valid_row():
         w = [rng.choice([0, 0, 1, 2, 3, 5]) for _ in range(A)]
         if sum(w) == 0: w[rng.randrange(A)] = 1
-        # dyadic row summing to one: distribute 64 units
         tot = sum(w); units = [64 * x // tot for x in w]; units[w.index(max(w))] += 64 - sum(units)
-        toks += [dy(u, 64) for u in units]
-    return "mpol %d %d %s %d" % (S, A, " ".join(toks), rng.randrange(1 << 30))
+        return units
+    rows = [valid_row() for _ in range(S)]
+    mode = rng.choice(["valid", "valid", "onebad", "comp", "comp", "transposed", "onestate", "negcomp"])
+    if mode == "onebad":
+        r = rng.randrange(S); rows[r][rng.randrange(A)] += rng.choice([-1, 1, 8, 16]) * 1
+        if min(rows[r]) < 0: rows[r] = [abs(x) for x in rows[r]]; rows[r][0] += 3
+    elif mode == "comp" and S >= 2:
+        i, j = rng.sample(range(S), 2); d = rng.choice([1, 4, 13, 32])
+        a = max(range(A), key=lambda k: rows[i][k])
+        if rows[i][a] >= d:
+            rows[i][a] -= d; rows[j][rng.randrange(A)] += d
+    elif mode == "transposed":
+        A = S = rng.choice([2, 3]) if True else S
+        cols = []
+        for _ in range(A):
+            w = [rng.choice([0, 1, 2, 3, 5]) for _ in range(S)]
+            if sum(w) == 0: w[0] = 1
+            tot = sum(w); u = [64 * x // tot for x in w]; u[w.index(max(w))] += 64 - sum(u); cols.append(u)
+        rows = [[cols[a][s_] for a in range(A)] for s_ in range(S)]
+    elif mode == "onestate" and S >= 2:
+        rows = [[0] * A for _ in range(S)]
+        rows[rng.randrange(S)] = [64 * S // A + (64 * S - (64 * S // A) * A if k == 0 else 0) for k in range(A)]
+    elif mode == "negcomp":
+        r = rng.randrange(S)
+        a, b = rng.sample(range(A), 2)
+        rows[r][a] -= (rows[r][a] + 4); rows[r][b] += 0   # a negative entry
+        rows[r][b] += 64 - sum(rows[r])                    # row still sums to one
+    toks = []
+    for r in rows:
+        toks += [dy(u, 64) for u in r]
+    return "mpol %d %d %s %d" % (len(rows), len(rows[0]), " ".join(toks), rng.randrange(1 << 30))
 
 
 def gen_pga(rng, tier):
@@ -360,6 +390,48 @@ def gen_pga(rng, tier):
         elif setters and r < 0.12: toks_ops.append("p %s" % rng.choice(["0", "1/2", "1", "3", "-1", "1/4"]))
         toks_ops.append("u %d" % s_)
     return "pga %d %d %s %s %s %d %s %d" % (S, A, " ".join(toks), lr, pl, len(toks_ops), " ".join(toks_ops), rng.randrange(1 << 30))
+
+
+def gen_pga_qswitch(rng, tier):
+    """the policy only holds a reference to the Q-function: drive a state onto a face / vertex of the
+       simplex with a clear best action and a large learning rate, then rewrite its Q-values (op q) —
+       one action gets the value that makes its gradient (about) zero (op z) — and update again; repeated.
+       After such a switch the gradient step can leave a row with no negative entry and a sum above one."""
+    S = rng.choice([1, 1, 2]); A = rng.choice([3, 4, 4, 5, 6])
+    rows = [gen_q(rng, A) for _ in range(S)]
+    toks = []
+    for r in rows:
+        toks += q_tokens(r)
+    lr = rng.choice(["1/4", "1/8", "1/2", "0x1.999999999999ap-3", "1/16", "0x1.999999999999ap-5"])
+    pl = rng.choice(["0", "0", "1/2", "1", "3"])
+    ops = []
+    s0 = rng.randrange(S)
+    if rng.random() < 0.5:      # a clear best action first
+        b = rng.randrange(A)
+        for a in range(A): ops.append("q %d %d %s" % (s0, a, "1" if a == b else rng.choice(["-1", "0", "0", "-1/2"])))
+    for _ in range(rng.choice([6, 10, 12, 14])): ops.append("u %d" % s0)
+    for _ in range(rng.choice([1, 2, 3, 4])):
+        z = rng.randrange(A)
+        for a in range(A):
+            if a != z: ops.append("q %d %d %s" % (s0, a, rng.choice(["1", "1", "-1", "1/2", "-1/2", "0", dy(rng.randint(-32, 32), 16)])))
+        ops.append("z %d %d %s" % (s0, z, rng.choice(["0", "0", "1/64", "1/16", "-1/64"])))
+        for _ in range(rng.choice([1, 1, 2, 3])): ops.append("u %d" % s0)
+        if S > 1 and rng.random() < 0.3: ops.append("u %d" % (1 - s0))
+    return "pga %d %d %s %s %s %d %s %d" % (S, A, " ".join(toks), lr, pl, len(ops), " ".join(ops), rng.randrange(1 << 30))
+
+
+def gen_pga_qsweep(rng, tier):
+    """random rewrites of a whole Q row every few updates (larger learning rates, >= 3 actions)"""
+    A = rng.choice([3, 4, 6]); S = 1
+    toks = q_tokens(gen_q(rng, A))
+    lr = rng.choice(["1/4", "0x1.999999999999ap-3", "0x1.999999999999ap-5", "1/16"]); pl = rng.choice(["0", "1", "3"])
+    ops = []
+    n = 40 if tier == "quick" else 80
+    for i in range(n):
+        if i % 8 == 0:
+            for a in range(A): ops.append("q 0 %d %s" % (a, dy(rng.randint(-16, 16), 16)))
+        ops.append("u 0")
+    return "pga %d %d %s %s %s %d %s %d" % (S, A, " ".join(toks), lr, pl, len(ops), " ".join(ops), rng.randrange(1 << 30))
 
 
 def gen_esrl(rng):
@@ -404,7 +476,9 @@ def gen(rng, tier):
         elif k == "smu": out.append(gen_softmax(rng, "under"))
         elif k == "wolf": out.append(gen_wolf(rng, tier))
         elif k == "mpol": out.append(gen_mpol(rng))
-        elif k == "pga": out.append(gen_pga(rng, tier))
+        elif k == "pga":
+            m = rng.random()
+            out.append(gen_pga(rng, tier) if m < 0.5 else gen_pga_qswitch(rng, tier) if m < 0.85 else gen_pga_qsweep(rng, tier))
         elif k == "esrl": out.append(gen_esrl(rng))
         elif k == "sr": out.append(gen_sr(rng))
         elif k == "rnd": out.append(gen_rnd(rng))
